@@ -78,6 +78,8 @@ def c13(ctx):
     ctx.build()
     ctx.tlc_mc("RoundTrip", "RoundTrip.cfg", workers=4, label="two-run machine: reading the rendering of a value yields the value (all six types, design level)")
     lex = gen_lines(ctx, "Portions", "Portions_%s.cfg" % ctx.tier, "every portion spelling over short digit strings with its exact value", workers=4)
+    if ctx.tier == "thorough":
+        lex += gen_lines(ctx, "Portions", "Portions_deep.cfg", "spellings with up to three digits per part over a smaller digit alphabet", workers=4)
     gp = os.path.join(ctx.work, "portions.ndjson")
     open(gp, "w").write("\n".join(lex) + "\n")
     op = os.path.join(ctx.work, "values.ndjson")
